@@ -14,7 +14,7 @@ FUNCTIONS = ["wannierberri.system.system_tb_py.get_system_tb_py (tbmodels, pytht
              "wannierberri.models.Haldane_ptb", "wannierberri.models.Haldane_tbm",
              "wannierberri.fourier.rvectors.Rvectors.set_fft_R_to_k/R_to_k (k-list transform, used to evaluate the imported H(k))"]
 BOUNDS = dict(
-    quick=dict(dim="1..3", orbitals="1..3", hoppings="<=4 incl. R=0, repeated pairs, R and -R on different pairs", amplitudes="symbolic complex (2x2 symbolic complex blocks if spinful)",
+    quick=dict(dim="1..3", orbitals="1..3", hoppings="<=4 incl. R=0, repeated pairs, R and -R on different pairs, repeated (i,j,R) entries and both members of a conjugate pair (all layouts)", amplitudes="symbolic complex (2x2 symbolic complex blocks if spinful)",
                onsite="symbolic real (2x2 symbolic Hermitian blocks if spinful)", k="3 generic concrete k-points (|error|<=1e-12 for |data|<=1) and one fully symbolic k (exact)",
                builders="Haldane_ptb (new and 1.x API branch) vs Haldane_tbm with symbolic delta, hop1, hop2 and symbolic phi (unit-circle atoms)"),
     thorough=dict(dim="1..3", orbitals="1..4", hoppings="<=6", amplitudes="as quick", onsite="as quick", k="5 concrete + symbolic", builders="as quick"))
@@ -23,7 +23,9 @@ EXPLANATION = ("The real get_system_tb_py runs on duck-typed model objects (exac
                "(PythTB convention I / TBmodels convention 1 incl. orbital-position phases at concrete k; TBmodels convention 2 = R-only gauge at symbolic k), up to the diagonal gauge exp(2 pi i k.t); Ham(-R)=Ham(R)^+ is checked exactly. "
                "The builder pair Haldane_ptb/Haldane_tbm runs with symbolic parameters against recording stand-ins of the pythtb/tbmodels modules and both records are imported "
                "by the real importer; the two systems must be identical polynomials in the parameters.")
-ASSUMPTIONS = ["TBmodels: model.hop holds R=0 and one of each +-R pair (what tbmodels.Model stores)", "PythTB: (i,j,R) and its conjugate partner (j,i,-R) are not both listed; no R=0 i==j hopping (both rejected by pythtb itself)",
+ASSUMPTIONS = ["TBmodels: model.hop is a dict R -> matrix; H(k) = sum over its keys + h.c. (the documented hamilton()), also when both R and -R are keys (tbmodels itself folds such pairs before storing)",
+               "PythTB: the hopping list may contain the same (i,j,R) several times and both members of a conjugate pair (i,j,R)/(j,i,-R) (set_hop(..., allow_conjugate_pair=True)): documented behaviour = the terms add up; "
+               "no R=0 i==j hopping (rejected by pythtb itself)",
                "lattice vectors and orbital positions are concrete (enumerated), amplitudes symbolic"]
 OUTSIDE = ["whether reducing PythTB orbital positions into the home cell without shifting the hopping R-vectors preserves position-dependent quantities (energies are unaffected; only centres == positions mod lattice vectors is demanded)", "band energies themselves (eigenvalues): equality of H(k) up to a diagonal unitary gauge implies equal energies", "other bundled builders have no TBmodels twin (only the Haldane pair exists)",
            "pythtb/tbmodels internals: the recording stand-ins implement the documented set_onsite/set_hop/add_hop/on_site semantics and are validated against the installed libraries on concrete parameters",
@@ -453,6 +455,21 @@ def case_validation(rec, seed):
                     Hlib = np.array(real_p.hamiltonian(k_pts=[k2]))[0]
                     if not np.allclose(Href, Hlib):
                         bad.append(("pythtb reference", trial))
+            # conjugate pairs / accumulated hoppings: the library adds the terms up, and so does the reference
+            lat1 = pythtb.Lattice(lat_vecs=LATS[1], orb_vecs=POS[1][:2], periodic_dirs=[0])
+            mc = pythtb.TBModel(lat1)
+            mc.set_onsite([0.3, -0.2])
+            mc.set_hop(0.3 + 0.1j, 0, 1, [1])
+            mc.set_hop(0.5 - 0.2j, 1, 0, [-1], allow_conjugate_pair=True)
+            mc.set_hop(0.7, 0, 1, [0])
+            mc.set_hop(0.2j, 1, 0, [0], allow_conjugate_pair=True)
+            hc = [(complex(h["amplitude"]), h["from_orbital"], h["to_orbital"], tuple(h.get("lattice_vector", (0,)))) for h in mc.hoppings]
+            if len(hc) != 4:
+                bad.append(("pythtb keeps both members of a conjugate pair", len(hc)))
+            for k in KCONC[:3]:
+                Href = href_pythtb(hc, mc._site_energies, k[:1], 2, 1, POS[1][:2], True).astype(complex)
+                if not np.allclose(Href, np.array(mc.hamiltonian(k_pts=[k[:1]]))[0]):
+                    bad.append(("pythtb conjugate-pair reference", 0))
             # spinful reference vs pythtb
             lat = pythtb.Lattice(lat_vecs=LATS[2], orb_vecs=POS[2][:2], periodic_dirs=[0, 1])
             m = pythtb.TBModel(lattice=lat, spinful=True)
@@ -484,7 +501,9 @@ def cases(tier, seed):
            Case("builders Haldane_ptb(1.x API) vs Haldane_tbm, symbolic parameters", case_builders, dict(ptb_version="1.9.0"))]
     # TBmodels layouts: R=0 plus positive-half R's
     tbm = [(1, 1, [(0,)]), (1, 2, [(0,), (1,)]), (1, 3, [(1,), (2,)]), (2, 2, [(0, 0), (1, 0), (0, 1)]), (2, 2, [(1, -1), (0, 0), (1, 1)]), (2, 3, [(0, 0), (0, 2)]),
-           (3, 2, [(0, 0, 0), (1, 0, -1), (0, 1, 1)]), (3, 1, [(0, 0, 1)]), (2, 1, [(0, 0)]), (2, 2, [])]
+           (3, 2, [(0, 0, 0), (1, 0, -1), (0, 1, 1)]), (3, 1, [(0, 0, 1)]), (2, 1, [(0, 0)]), (2, 2, []),
+           # both members of a +-R pair present: the terms add up
+           (1, 2, [(1,), (-1,)]), (2, 2, [(0, 0), (1, 0), (-1, 0)]), (3, 1, [(0, 0, 1), (0, 0, -1)])]
     if not q:
         tbm += [(3, 3, [(0, 0, 0), (1, 1, 1), (0, 0, 2), (1, -1, 0)]), (2, 4, [(0, 0), (1, 0), (0, 1), (1, 1), (1, -1)]), (1, 4, [(0,), (1,), (2,), (3,)])]
     for dim, size, Rs in tbm:
@@ -492,7 +511,10 @@ def cases(tier, seed):
     # PythTB layouts: (i, j, R)
     ptb = [(1, 1, [(0, 0, (1,))]), (1, 2, [(0, 1, (0,)), (1, 0, (1,)), (0, 0, (2,))]), (2, 2, [(0, 1, (0, 0)), (1, 0, (1, 0)), (1, 0, (0, 1)), (0, 0, (1, -1))]),
            (2, 3, [(0, 1, (0, 0)), (0, 1, (1, 0)), (2, 1, (-1, 0)), (2, 2, (0, 1))]), (3, 2, [(0, 1, (0, 0, 0)), (1, 1, (0, 0, 1)), (0, 1, (-1, 1, 0))]),
-           (3, 3, [(0, 2, (1, 0, 0)), (1, 2, (-1, 0, 0)), (0, 1, (0, 0, 0)), (1, 0, (0, -1, 1))]), (2, 1, []), (2, 2, [(0, 1, (0, 0))]), (1, 3, [(0, 1, (0,)), (1, 2, (0,))])]
+           (3, 3, [(0, 2, (1, 0, 0)), (1, 2, (-1, 0, 0)), (0, 1, (0, 0, 0)), (1, 0, (0, -1, 1))]), (2, 1, []), (2, 2, [(0, 1, (0, 0))]), (1, 3, [(0, 1, (0,)), (1, 2, (0,))]),
+           # repeated (i,j,R) entries and both members of a conjugate pair (allow_conjugate_pair=True): the terms add up
+           (1, 2, [(0, 1, (1,)), (1, 0, (-1,))]), (1, 2, [(0, 1, (0,)), (1, 0, (0,)), (0, 1, (0,))]), (2, 2, [(0, 1, (1, 0)), (0, 1, (1, 0)), (1, 0, (-1, 0))]),
+           (2, 1, [(0, 0, (0, 1)), (0, 0, (0, -1))]), (3, 2, [(1, 0, (0, 0, 1)), (0, 1, (0, 0, -1)), (1, 0, (0, 0, 1))])]
     if not q:
         ptb += [(3, 4, [(0, 3, (1, 0, 0)), (1, 2, (-1, 0, 0)), (0, 1, (0, 0, 0)), (1, 0, (0, -1, 1)), (3, 3, (0, 0, 1)), (2, 0, (1, 1, 1))]),
                 (2, 2, [(0, 1, (0, 0)), (0, 1, (1, 0)), (0, 1, (0, 1)), (0, 1, (-1, 0)), (0, 1, (0, -1)), (1, 1, (1, 1))])]
